@@ -97,10 +97,10 @@ func vCorsContainer(h *vH, k vCorsCfg, withCors bool) *Container {
 
 var vCorsTable = vTable{services: []vService{{root: "/t", routes: []vRoute{{method: "GET", path: "/a"}, {method: "POST", path: "/b"}, {method: "OPTIONS", path: "/a"}}}}}
 
-func vCorsDomains(n int) []string {
+func vCorsDomains(n, capN int) []string {
 	var d []string
 	for i := 0; i < n; i++ {
-		d = append(d, nondetString("dom"+vItoa(i), 6))
+		d = append(d, nondetString("dom"+vItoa(i), capN))
 	}
 	return d
 }
@@ -108,15 +108,20 @@ func vCorsDomains(n int) []string {
 // H_C08: CORS headers are granted only to allowed origins, echoing the origin.
 // cfg: number of allowed domains (0..2) + 3*(predicate configured)
 func H_C08(cfg int) {
-	k := vCorsCfg{domains: vCorsDomains(cfg % 3), hasFunc: (cfg/3)%2 == 1, cookies: nondetBool("cookies"), expose: []string{"X-E"}, maxAge: 5}
+	capN := 6
+	if cfg >= 100 { // thorough bounds
+		cfg -= 100
+		capN = 11
+	}
+	k := vCorsCfg{domains: vCorsDomains(cfg%3, capN), hasFunc: (cfg/3)%2 == 1, cookies: nondetBool("cookies"), expose: []string{"X-E"}, maxAge: 5}
 	if k.hasFunc {
-		k.funcAcc = nondetString("funcacc", 6)
+		k.funcAcc = nondetString("funcacc", capN)
 	}
 	h := vNewH(vCorsTable)
 	c := vCorsContainer(h, k, true)
 	ht := vNewH(vCorsTable)
 	twin := vCorsContainer(ht, k, false)
-	origin := nondetString("origin", 6)
+	origin := nondetString("origin", capN)
 	method := nondetString("method", 7)
 	acrm := nondetString("acrm", 4)
 	hdr := map[string]string{"Origin": origin, HEADER_AccessControlRequestMethod: acrm}
@@ -152,7 +157,7 @@ func H_C08(cfg int) {
 
 // refHeadersAllowed: every requested header (comma separated, optional spaces)
 // is among the allowed headers ignoring case, or a wildcard entry is configured.
-func refHeadersAllowed(allowed []string, acrh string) bool {
+func refHeadersAllowed(allowed []string, acrh string, maxItems int) bool {
 	wild := vContains(allowed, "*")
 	if wild {
 		return true
@@ -160,7 +165,7 @@ func refHeadersAllowed(allowed []string, acrh string) bool {
 	ok := true
 	rest := acrh
 	more := true
-	for i := 0; i < 2; i++ {
+	for i := 0; i < maxItems; i++ {
 		ci := strings.Index(rest, ",")
 		has := ci != -1
 		item := strings.ToLower(strings.Trim(vIteStr(has, vSubstr(rest, 0, ci), rest), " "))
@@ -179,19 +184,24 @@ func refHeadersAllowed(allowed []string, acrh string) bool {
 // cfg: 0 configured methods [GET,PUT]; 1 methods computed from the container;
 //      +2: allowed headers contain the wildcard
 func H_C09(cfg int) {
+	acrhCap, items, ahCap := 8, 2, 4
+	if cfg >= 100 { // thorough bounds
+		cfg -= 100
+		acrhCap, items, ahCap = 13, 3, 6
+	}
 	k := vCorsCfg{cookies: nondetBool("cookies"), maxAge: 5}
 	if cfg%2 == 0 {
 		k.methods = []string{"GET", "PUT"}
 	}
-	k.headers = []string{nondetString("ah0", 4), "X-B"}
+	k.headers = []string{nondetString("ah0", ahCap), "X-B"}
 	if cfg/2 == 1 {
 		k.headers = append(k.headers, "*")
 	}
 	h := vNewH(vCorsTable)
 	c := vCorsContainer(h, k, true)
 	acrm := nondetString("acrm", 5)
-	acrh := nondetString("acrh", 8)
-	verifAssume(strings.Count(acrh, ",") <= 1)
+	acrh := nondetString("acrh", acrhCap)
+	verifAssume(strings.Count(acrh, ",") < items)
 	method := nondetString("method", 7)
 	urlSel := nondetChoice("url", 2)
 	path := []string{"/t/a", "/t/b"}[urlSel]
@@ -216,7 +226,7 @@ func H_C09(cfg int) {
 		allowedM = []string{"POST"}
 	}
 	mOK := refMediaIn(allowedM, acrm)
-	hOK := refHeadersAllowed(k.headers, acrh)
+	hOK := refHeadersAllowed(k.headers, acrh, items)
 	granted := vAnyCors(rec)
 	verifObserveBool("granted", granted)
 	verifObserveInt("status", rec.code())
